@@ -1,0 +1,13 @@
+//go:build verif
+
+package ziptree
+
+// VerifRank lets a simulator own the zip tree's rank randomness (verification
+// builds only). Nil means shipped behaviour (math/rand/v2 global).
+var VerifRank func() uint32
+
+func verifRank(n *Node) {
+	if VerifRank != nil {
+		n.rank = VerifRank()
+	}
+}
